@@ -59,9 +59,11 @@ func (x *c08World) Enabled() []bfs.Op {
 	ops := []bfs.Op{{Name: "List"}, {Name: "Lock", Arg: "p"}, {Name: "Unlock", Arg: "p"}, {Name: "Unlock", Arg: "q"}, {Name: "Unlock", Arg: ""},
 		{Name: "Lock", Arg: "q"}, {Name: "Signers"}, {Name: "Sign", Arg: "K1"}, {Name: "Sign", Arg: "h1"}, {Name: "AddHardCert", Arg: "h1"},
 		{Name: "Add", Arg: "K2"}, {Name: "Add", Arg: "c.cur"}, {Name: "Remove", Arg: "K1"}, {Name: "Remove", Arg: "h1"}, {Name: "RemoveAll"},
-		{Name: "Lock!refused", Arg: "p"}, {Name: "Unlock!refused", Arg: "p"}, {Name: "Close"}}
+		{Name: "Lock!refused", Arg: "p"}, {Name: "Unlock!refused", Arg: "p"}, {Name: "Close"},
+		// the request FOLLOWING the lock/unlock request inside the same operation fails (there is none on the current tree)
+		{Name: "Lock!refused+1", Arg: "p"}, {Name: "Unlock!refused+1", Arg: "p"}}
 	if x.thorough {
-		ops = append(ops, bfs.Op{Name: "Lock!closed", Arg: "p"}, bfs.Op{Name: "Unlock!closed", Arg: "p"}, bfs.Op{Name: "Sign", Arg: "c.cur"}, bfs.Op{Name: "Remove", Arg: "c.cur"},
+		ops = append(ops, bfs.Op{Name: "Lock!closed", Arg: "p"}, bfs.Op{Name: "Unlock!closed", Arg: "p"}, bfs.Op{Name: "Lock!closed+1", Arg: "p"}, bfs.Op{Name: "Unlock!closed+1", Arg: "p"}, bfs.Op{Name: "Unlock!refused+2", Arg: "p"}, bfs.Op{Name: "Sign", Arg: "c.cur"}, bfs.Op{Name: "Remove", Arg: "c.cur"},
 			bfs.Op{Name: "Lock", Arg: ""}, bfs.Op{Name: "Forward", Arg: "\x0b"})
 	}
 	return ops
@@ -87,19 +89,29 @@ func (x *c08World) Apply(op bfs.Op) (fs []bfs.Finding) {
 	add := func(key, desc string) { fs = append(fs, bfs.Finding{Key: "C08:" + key, Desc: desc}) }
 	real := op
 	fault := ""
+	off := 0 // the fault hits the off-th underlying request AFTER the operation's first one (0 = the lock/unlock request itself)
 	if i := strings.Index(op.Name, "!"); i > 0 {
 		real.Name = op.Name[:i]
-		fault = map[string]string{"refused": "failure", "closed": "close"}[op.Name[i+1:]]
+		kind := op.Name[i+1:]
+		if j := strings.Index(kind, "+"); j > 0 {
+			fmt.Sscanf(kind[j+1:], "%d", &off)
+			kind = kind[:j]
+		}
+		fault = map[string]string{"refused": "failure", "closed": "close"}[kind]
 	}
+	consumed := false
 	run := func(sw *shimWorld) opResult {
 		var armedAt int
 		if fault != "" {
-			armedAt = len(sw.ua.Log)
+			armedAt = len(sw.ua.Log) + off
 			sw.ua.Plan[armedAt] = fault
 		}
 		r := sw.exec(real)
 		if fault != "" {
 			delete(sw.ua.Plan, armedAt) // an unconsumed fault does not dangle
+			if sw == x.w {
+				consumed = len(sw.ua.Log) > armedAt && sw.ua.Log[armedAt].Fault != ""
+			}
 		}
 		return r
 	}
@@ -109,6 +121,29 @@ func (x *c08World) Apply(op bfs.Op) (fs []bfs.Finding) {
 	if r.panic != "" {
 		add("panic:"+ev.PanicSite(r.panic), r.panic)
 		return
+	}
+	if off > 0 {
+		if !consumed {
+			fault = "" // the operation made no such request: it is the plain operation
+		} else {
+			// the lock/unlock request itself was accepted and a LATER request of the same operation failed: whatever
+			// the operation returns, the shim's lock state must follow the underlying agent's (the reference adopts the
+			// ground truth; a shim that stays locked while the agent is unlocked differs from the twin from now on)
+			x.c.Outcome(fmt.Sprintf("%s/fault-after-lock-request/%s", real.Name, errClass(r.err)))
+			x.c.Nontrivial(fmt.Sprintf("late-fault|%s|%d|%v", op.Name, off, wasLocked))
+			x.locked = x.w.ua.Ring.Locked
+			if x.locked {
+				if !wasLocked {
+					x.pass = real.Arg
+				}
+			} else {
+				x.pass = ""
+			}
+			if fault == "close" {
+				x.closed = true
+			}
+			return
+		}
 	}
 	x.c.Outcome(fmt.Sprintf("%s/locked=%v/%s", real.Name, wasLocked, errClass(r.err)))
 	if wasLocked {
@@ -227,7 +262,7 @@ func (x *c08World) Apply(op bfs.Op) (fs []bfs.Finding) {
 
 func checkC08(c *ev.Ctx) {
 	setupFixtures()
-	c.Rule("E1 BFS over histories of the real shimagent.Server: alphabet Lock/Unlock with passphrases {p,q,''}, lock/unlock refused by the underlying agent (failure reply; thorough: connection drop), and every other ShimAgent operation; roots = both upstream modes x 4 initial contents; reference lock automaton + differential twin that skips lock episodes. non-trivial = operation executed on a locked shim or a successful lock; distinct by (operation, memory table, underlying identities)")
+	c.Rule("E1 BFS over histories of the real shimagent.Server: alphabet Lock/Unlock with passphrases {p,q,''}, lock/unlock refused by the underlying agent (failure reply; thorough: connection drop), a failure of the request that FOLLOWS the lock/unlock request inside the same operation, and every other ShimAgent operation; roots = both upstream modes x 4 initial contents; reference lock automaton + differential twin that skips lock episodes. non-trivial = operation executed on a locked shim or a successful lock; distinct by (operation, memory table, underlying identities)")
 	c.Assume("the reflection walk finds the shim's in-memory table without naming it", "ground truth of the underlying agent is the harness-owned keyring")
 	depth, maxStates := 5, 0
 	if c.Thorough() {
